@@ -758,6 +758,9 @@ func (vfs *OrefaFS) RemoveAll(path string) error {
 }
 
 func (vfs *OrefaFS) removeAll(absPath string, rootNode *node) {
+	avfs.VerifBatchBegin()
+	defer avfs.VerifBatchEnd()
+
 	rootNode.mu.Lock()
 	defer rootNode.mu.Unlock()
 
